@@ -5,7 +5,7 @@ m={'pipe.go':'C01 C02 C03 C04 C05 C06 C07 C08 C09 C11 C12 C14 C24 C25 C26 C27 C2
  'ring.go':'C01 C02 C05','flowbuffer.go':'C01 C02 C05','pool.go':'C05 C24 C25 C29','lru.go':'C06 C07 C08 C09 C10 C11',
  'cache.go':'C06 C07 C08 C09','cluster.go':'C03 C11 C19 C20 C21 C25 C26 C28 C33','client.go':'C03 C25 C28 C33',
  'retry.go':'C05 C28','mux.go':'C04 C11 C24 C25 C29','sentinel.go':'C03 C21 C23 C28 C47','standalone.go':'C03 C21 C28 C33',
- 'resp.go':'C12 C13 C14 C29','message.go':'C15 C16 C17','helper.go':'C11 C22 C31 C46 C16','pubsub.go':'C26','url.go':'C44',
+ 'resp.go':'C12 C13 C14 C29','message.go':'C15 C16 C17','helper.go':'C11 C22 C31 C46 C16','pubsub.go':'C26','url.go':'C44','rueidis.go':'C44 C47 C03','singleflight.go':'C19 C03','syncp.go':'C01 C33',
  'binary.go':'C45','lua.go':'C30','internal/cmds/cmds.go':'C08 C14 C18 C32 C33','internal/cmds/builder.go':'C18 C32 C33','internal/cmds/slot.go':'C18'}
 props=set(); unknown=False
 for l in open(sys.argv[1]):
@@ -13,7 +13,10 @@ for l in open(sys.argv[1]):
     if g:
         f=g.group(1).strip()
         if f.endswith('_test.go'): continue
-        if f not in m: unknown=True
-        props|=set(m.get(f,'').split())
+        pref={'rueidiscompat/':'C41 C42','rueidisprob/':'C35 C36 C37','rueidislimiter/':'C38','rueidisaside/':'C39','om/':'C40','rueidishook/':'C43','rueidislock/':'C34','internal/cmds/gen_':'C18 C32 C33','internal/util/':'C01 C14 C33'}
+        hit=[v for k,v in pref.items() if f.startswith(k)]
+        if f in m: props|=set(m[f].split())
+        elif hit: props|=set(hit[0].split())
+        else: unknown=True
 # a file the table does not know: print nothing, the caller then runs every property
 print('' if unknown else ' '.join(sorted(props)))
